@@ -233,6 +233,10 @@ def explore(ctx):
         info = {}
         if vertical:
             info = {"openTypeVheaVertTypoAscender": 500, "openTypeVheaVertTypoDescender": -500, "openTypeVheaVertTypoLineGap": 0}
+            if i % 2 == 0:
+                # the typographic ascender set explicitly and DIFFERENT from the ascender it would fall back to: the default
+                # vertical origin is OS/2.sTypoAscender, not the ascender
+                info.update({"ascender": 800, "openTypeOS2TypoAscender": [880, 760][(i // 2) % 2]})
             for g in desc["glyphs"]:
                 g["height"] = Fr(rng.choice([1000, 1000, 800]))
             if rng.random() < 0.7 or i % 5 == 3:
@@ -403,6 +407,18 @@ def explore(ctx):
                                 G.tup(G.lst(recs, "(str * Z)"), G.z(v.defaultVertOriginY))))
             vmeta.append(dict(case, level="VORG / vmtx", vorg={"default": v.defaultVertOriginY, "records": dict(v.VOriginRecords)}))
             ctx.klass("VORG:%d records" % min(len(recs), 3))
+        if vertical and "vmtx" in tt3 and not renamed:
+            # top side bearing = vertical origin - yMax, the origin being the glyph's own public.verticalOrigin or, failing that,
+            # the font's typographic ascender (as compiled into OS/2)
+            for n, _adv, _sb, bx in ms:
+                if bx is None or n not in by_src:
+                    continue
+                ex = by_src[n].get("lib", {}).get("public.verticalOrigin")
+                origin = geom.ot_round(Fr(ex)) if ex is not None else tt3["OS/2"].sTypoAscender
+                if tt3["vmtx"][n][1] != origin - bx[3]:
+                    ctx.spec_failure(dict(case, glyph=n), "top side bearing of %r is %d; its vertical origin %d (%s) minus yMax %d is %d" % (
+                        n, tt3["vmtx"][n][1], origin, "public.verticalOrigin" if ex is not None else "OS/2.sTypoAscender", bx[3], origin - bx[3]))
+                    break
         if vertical and "vhea" in tt3:
             vh, vm = tt3["vhea"], tt3["vmtx"]
             hs = [vm[n][0] for n in tt3.getGlyphOrder()]
